@@ -175,6 +175,8 @@ def _isclose_spec(a: Any, b: Any, rtol: Any) -> z3.BoolRef:
 
 
 def _helper_job(helper: str, cfg: Dict[str, Any]) -> Callable[[], Record]:
+    state: Dict[str, Any] = {}
+
     def run() -> Record:
         qual = TS + helper
         tag = f"C19:transforms._track_scales.{helper}"
@@ -211,15 +213,24 @@ def _helper_job(helper: str, cfg: Dict[str, Any]) -> Callable[[], Record]:
                         m1, m0 = n.meta["metrics"].attrs["fwd"].attrs["mean_abs"], n.input_nodes()[0].meta["metrics"].attrs["fwd"].attrs["mean_abs"]
                         ctx.assume(z3.Not(_isclose_spec(m1, m0, rtol)))
             sig0 = g.signature()
+            state.clear()
 
             def thunk() -> Any:
                 f = lookup_fn(it, qual)
-                if helper == "prune_non_float_tensors":
-                    out = it.call(f, [g], {})
-                elif helper == "prune_same_scale_tensors":
-                    out = it.call(f, [g], {"rtol": rtol})
+                if cfg.get("history") == "input_is_an_earlier_result":
+                    # the graph handed in is itself what a copying helper returned earlier (chained passes)
+                    nonlocal_g = it.call(lookup_fn(it, TS + "prune_non_float_tensors"), [g], {})
+                    state["input"] = nonlocal_g
+                    state["sig_in"] = nonlocal_g.signature()
+                    gin = nonlocal_g
                 else:
-                    out = it.call(f, [g, ["selected_fn", "another_selected_fn"]], {})
+                    gin = g
+                if helper == "prune_non_float_tensors":
+                    out = it.call(f, [gin], {})
+                elif helper == "prune_same_scale_tensors":
+                    out = it.call(f, [gin], {"rtol": rtol})
+                else:
+                    out = it.call(f, [gin, ["selected_fn", "another_selected_fn"]], {})
                 return out, g, sig0, node, prev, cons, rtol
 
             return it, thunk
@@ -235,8 +246,19 @@ def _helper_job(helper: str, cfg: Dict[str, Any]) -> Callable[[], Record]:
             copying = helper != "prune_selected_nodes"
             if copying:
                 ctx.oblige(f"{tag}:input_graph_unchanged{cs}", g.signature() == sig0 and out is not g)
+                if "input" in state:
+                    gin = state["input"]
+                    ctx.oblige(f"{tag}:input_graph_unchanged_also_when_it_is_an_earlier_result{cs}", gin.signature() == state["sig_in"] and out is not gin, same_object=out is gin)
             else:
                 ctx.oblige(f"{tag}:returns_the_same_graph_object{cs}", out is g)
+            if cfg.get("history"):
+                # the structural clauses are decided on the un-chained configurations; here only the frame
+                try:
+                    out.lint(p.interp)
+                    ctx.oblige(f"{tag}:result_well_formed{cs}", True)
+                except PyRaise as e:
+                    ctx.oblige(f"{tag}:result_well_formed{cs}", False, exc=str(e))
+                return None
             names = [n.name for n in out.nodes]
             nN, nOut = _names(cfg)
             removed = nN not in names
@@ -329,3 +351,6 @@ for _sel in (True, False):
     register(Job("c19:prune_selected_nodes[" + ",".join(f"{k}={_c[k]}" for k in sorted(_c)) + "]", ["C19"], TS + "prune_selected_nodes", _c, _helper_job("prune_selected_nodes", _c)))
 _c = {"node_is_float": True, "float_args": 1, "user": "positional", "bwd": "both", "names": "user_variable_called_output"}
 register(Job("c19:prune_same_scale_tensors[" + ",".join(f"{k}={_c[k]}" for k in sorted(_c)) + "]", ["C19"], TS + "prune_same_scale_tensors", _c, _helper_job("prune_same_scale_tensors", _c)))
+for _h, _c in (("prune_same_scale_tensors", {"node_is_float": True, "float_args": 1, "user": "positional", "bwd": "both", "history": "input_is_an_earlier_result"}), ("prune_non_float_tensors", {"node_is_float": False, "float_args": 1, "user": "positional", "history": "input_is_an_earlier_result"}), ("prune_non_float_tensors", {"node_is_float": True, "float_args": 1, "user": "positional", "history": "input_is_an_earlier_result"})):
+    register(Job(f"c19:{_h}[" + ",".join(f"{k}={_c[k]}" for k in sorted(_c)) + "]", ["C19"], TS + _h, _c, _helper_job(_h, _c)))
+
